@@ -408,10 +408,28 @@ func c05Reject(c *Ctx) *RuleResult {
 				r.bad(c.Prop, construct, posOf(p, cs.Node), "no `index < 0` branch that returns: a request without a matching queue is not rejected")
 				continue
 			}
-			// code variable
+			// code variable -- computed in the rejecting branch, or in a helper whose result it returns
 			codeOK := false
 			why := ""
+			rejBody, rejInfo := rej.Body, info
 			ast.Inspect(rej.Body, func(n ast.Node) bool {
+				ret, ok := n.(*ast.ReturnStmt)
+				if !ok || len(ret.Results) != 1 {
+					return true
+				}
+				if call, ok := ast.Unparen(ret.Results[0]).(*ast.CallExpr); ok {
+					if fn := calleeOf(info, call); fn != nil && p.Decl(fn) != nil && relPkg(fn.Pkg()) == schedPkg {
+						rejBody, rejInfo = p.Decl(fn).Body, p.InfoFor(p.Decl(fn))
+					}
+				}
+				return true
+			})
+			{
+				info := rejInfo
+				_ = info
+			}
+			ast.Inspect(rejBody, func(n ast.Node) bool {
+				info := rejInfo
 				ret, ok := n.(*ast.ReturnStmt)
 				if !ok || len(ret.Results) != 1 {
 					return true
@@ -428,7 +446,7 @@ func c05Reject(c *Ctx) *RuleResult {
 				}
 				cv, _ := info.Uses[codeID].(*types.Var)
 				def, alt, altGuardOK := "", "", false
-				ast.Inspect(rej.Body, func(m ast.Node) bool {
+				ast.Inspect(rejBody, func(m ast.Node) bool {
 					as, ok := m.(*ast.AssignStmt)
 					if !ok || len(as.Lhs) != 1 {
 						return true
@@ -441,7 +459,7 @@ func c05Reject(c *Ctx) *RuleResult {
 						def = exprStr(as.Rhs[0])
 					} else {
 						alt = exprStr(as.Rhs[0])
-						for _, g := range flattenGuards(GuardsOf(info, rej.Body, as)) {
+						for _, g := range flattenGuards(GuardsOf(info, rejBody, as)) {
 							if gc, ok := ast.Unparen(g.Cond).(*ast.CallExpr); ok && g.Pos {
 								if name, a, b, ok := isTimeCmp(info, gc); ok && name == "Before" && strings.HasSuffix(exprStr(a), ".now") && fieldOf(info, b) == hard {
 									altGuardOK = true
